@@ -247,6 +247,13 @@ func C20(c *core.Ctx) {
 			c.Decide(g1.OK && g1.PerLit[0] > 0 && g1.PerLit[1] > 0, "R20.2", "data-name-match-gate", p.Pos(od.Pos()), "callback unreachable when the Data name is longer than the Interest name and CanBePrefix is unset", "an Interest without CanBePrefix can be resolved by Data with a longer name (name-match gate missing or inverted)")
 			g2 := core.GateDeep(od, cbs, neg(impSet), pos(digestEq))
 			c.Decide(g2.OK && g2.PerLit[0] > 0 && g2.PerLit[1] > 0, "R20.2", "implicit-digest-gate", p.Pos(od.Pos()), "callback unreachable when an implicit digest was requested and differs", "an Interest that requested an implicit SHA-256 digest can be resolved by Data with a different digest")
+			// R20.11: an Interest that ends in an implicit digest names ONE Data packet: it is
+			// filed under its name without the digest, and the digest is the last component
+			// of the Data's full name — so the Data name must end at that node, CanBePrefix or
+			// not. The callback is unreachable for an entry with a digest while the Data name
+			// is longer than the node's depth.
+			g3 := core.GateDeep(od, cbs, neg(impSet), neg(shorter))
+			c.Decide(g3.OK && g3.PerLit[0] > 0 && g3.PerLit[1] > 0, "R20.11", "digest-interest-needs-exact-name", p.Pos(od.Pos()), "callback unreachable for an entry with an implicit digest when the Data name is longer than the Interest name", "an Interest /N/sha256digest=D with CanBePrefix is resolved by Data /N/x whose digest is D: the Data's full name is /N/x/D, which the Interest name neither equals nor prefixes — the Interest is resolved with Data that does not satisfy it and leaves the PIT")
 			// the walk covers every ancestor of the longest-prefix node
 			asc := false
 			core.InstrsDeep(od, func(in ssa.Instruction) {
@@ -536,6 +543,59 @@ func C20(c *core.Ctx) {
 		c.Decide(okLookup, "R20.2", "handler-longest-prefix", p.Pos(oi.Pos()), "the handler is the first non-nil value walking Parent() from PrefixMatch(name), under fibLock", "onInterest does not select the handler attached at the longest matching prefix under the FIB lock")
 		c.Decide(okReply, "R20.2", "reply-before-deadline", p.Pos(oi.Pos()), "Reply sends only on an edge asserting that the deadline is strictly after now", "Reply transmits Data although the Interest's deadline has been reached (now >= deadline; a test of the form Deadline.Before(now) still sends at now == deadline)")
 	}
+	// ---- R20.12 a whole network packet in a link-layer frame is taken whether or not the frame
+	// spells out "fragment 0 of 1": the engine does not reassemble, so it drops real
+	// fragments — but by the VALUES of FragIndex / FragCount, not by their presence (an absent
+	// FragIndex is 0, an absent FragCount is 1, and the repository's own forwarder accepts the
+	// explicit form). From every edge asserting that one of the two fields is present, the
+	// processing of the frame's payload is still reachable.
+	if op := c.Fn("R20.12", "std/engine/basic", "Engine", "onPacket"); op != nil {
+		var use ssa.Instruction
+		core.InstrsDeep(op, func(in ssa.Instruction) {
+			if fa, ok := in.(*ssa.FieldAddr); ok && use == nil {
+				if tn, fld := core.FieldAddrName(fa); tn == "LpPacket" && fld == "Fragment" {
+					use = in
+				}
+			}
+		})
+		present := func(field string) *core.Atom {
+			return &core.Atom{Name: field + " present", Match: func(cond ssa.Value) (int, int) {
+				op2, x, y, ok := core.Cmp(cond)
+				if !ok || (op2 != token.EQL && op2 != token.NEQ) {
+					return 0, 0
+				}
+				if core.IsNilConst(x) {
+					x, y = y, x
+				}
+				if !core.IsNilConst(y) {
+					return 0, 0
+				}
+				if _, isF := core.FieldOf(x, field); !isF {
+					return 0, 0
+				}
+				return core.Iff(op2 == token.NEQ)
+			}}
+		}
+		if use == nil {
+			c.Und("R20.12", "whole-packet-in-explicit-single-fragment", p.Pos(op.Pos()), "onPacket no longer reads LpPacket.Fragment")
+		} else {
+			bad := ""
+			nEdges := 0
+			for _, fld := range []string{"FragIndex", "FragCount"} {
+				for _, ef := range core.EdgeFactsDeep(op, present(fld)) {
+					if !ef.Holds || ef.E.From.Parent() != use.Parent() {
+						continue
+					}
+					nEdges++
+					if core.ReachInstrFrom(core.Point{Block: ef.E.To, Idx: 0}, use, nil, nil) == nil {
+						bad = fld
+					}
+				}
+			}
+			c.Decide(bad == "", "R20.12", "whole-packet-in-explicit-single-fragment", c.Pos(use), fmt.Sprintf("the payload is still processed on the %d edges asserting that a fragmentation field is present", nEdges), "Engine.onPacket drops every link-layer frame in which "+bad+" is present, also the unfragmented case FragIndex=0 / FragCount=1: the Data (or Nack) inside resolves nothing, so an arriving Data does not resolve the pending Interests it satisfies and they time out")
+		}
+	}
+
 }
 
 // derefFree: a load of a free variable in closure f is followed to the value the
